@@ -4,6 +4,7 @@ import (
 	"strings"
 
 	"verif/internal/load"
+	"verif/internal/mem"
 	"verif/internal/pt"
 	"verif/internal/rep"
 	"verif/internal/roles"
@@ -113,8 +114,8 @@ func checkC07(c *Ctx, r *rep.Report) {
 }
 
 func checkC14(c *Ctx, r *rep.Report) {
-	r.Explanation = "S/G: GenerateKey passes the reader to exactly one io.ReadFull on a fresh 32-byte buffer, an error yields (nil,nil,err), success yields NewKeyFromSeed(seed) and its [32:64]; NewKeyFromSeed returns seed || Pack([clamp(SHA512(seed))]B); Public/Seed return the right halves; Equal is a comma-ok assertion to the receiver's own type followed by whole-slice equality."
-	r.NotDecided = "freshness of returned slices is engine M's rule (added with C15); determinism follows from purity (C02/C15)"
+	r.Explanation = "S/G: GenerateKey passes the reader to exactly one io.ReadFull on a fresh 32-byte buffer, an error yields (nil,nil,err), success yields NewKeyFromSeed(seed) and its [32:64]; NewKeyFromSeed returns seed || Pack([clamp(SHA512(seed))]B); Public/Seed return the right halves; Equal is a comma-ok assertion to the receiver's own type followed by whole-slice equality; M3: the returned slices are rooted only in allocations made during the call (no aliasing of the key or the seed argument)."
+	r.NotDecided = "determinism follows from purity (C02/C15)"
 	p, rl := c.mustLoad(r, "amd64-default")
 	if p == nil {
 		return
@@ -123,6 +124,9 @@ func checkC14(c *Ctx, r *rep.Report) {
 	ruleGenerateKey(r, p, rl)
 	ruleAccessors(r, p, rl)
 	ruleEqual(r, p, rl)
+	an := mem.New()
+	ruleFreshness(r, p, an, map[string]bool{"PrivateKey.Public": true, "PrivateKey.Seed": true, "GenerateKey": true, "NewKeyFromSeed": true})
+	ruleNoParamWrites(r, p, an)
 }
 
 // ruleZipFlagUses: every use of the ZIP-215 option field feeds the verifier core's flag parameter or a `!flag && smallOrder` guard.
